@@ -379,7 +379,7 @@ def pipeline(chk, repo, w):
     bad = []
     for nm, q in want_res.items():
         r = repo.resolve_binding(m, nm)
-        if not r or r[0] != "func" or r[1].qualname != q:
+        if not repo.is_func(r, q):
             bad.append(f"{nm} -> {r[1].qualname if r and r[0] == 'func' else r}")
     chk.ob("C10.R1", H2C, "add / swu / iso / clear-cofactor names resolve to the optimized BLS12-381 modules", not bad, "; ".join(bad), m.relpath)
     msg, dst = var("msg", "bytes"), var("DST", "bytes")
